@@ -543,3 +543,38 @@ func init() {
 		Outside: []string{"real ports and kernel accept queues, timing, TLS port lifecycle, longer histories"},
 	})
 }
+
+func init() {
+	register(&Prop{
+		ID: "C16",
+		Jobs: func(rc *RunCtx) []JobSpec {
+			cmds := []string{"GET", "SET", "SETNX", "SETNX2", "GETSET", "INCR", "DECRBY", "APPEND", "MSETNX", "DEL", "GETJ"}
+			pre := "2"
+			if rc.Tier == "thorough" {
+				pre = "4"
+			}
+			var js []JobSpec
+			for i, a := range cmds {
+				for _, b := range cmds[i:] {
+					if (a == "GET" || a == "GETJ") && (b == "GET" || b == "GETJ") {
+						continue
+					}
+					js = append(js, JobSpec{Set: "redis", Fn: "HarnessC16Atomic", Params: p("a", a, "b", b, "preempt", pre)})
+					js = append(js, JobSpec{Set: "server", Fn: "HarnessC16Store", Params: p("a", a, "b", b, "preempt", pre, "fixednow", "1")})
+				}
+			}
+			return js
+		},
+		EngineOnly:     map[string]bool{"HarnessC16Atomic": true, "HarnessC16Store": true},
+		RequiredCovers: map[string][]string{"HarnessC16Atomic": {"end"}, "HarnessC16Store": {"end"}},
+		Bounds: func(tier string) map[string]interface{} {
+			return map[string]interface{}{"clients": 2, "commands_per_client": 1, "command_pairs": "every unordered pair from GET k, SET k, SETNX k (two values), GETSET k, INCR k, DECRBY k 3, APPEND k, MSETNX k j, DEL k, GET j", "initial_store": "k absent | \"5\" | \"x\"", "interleavings": "reference store: all interleavings at handler-operation boundaries; example store: all interleavings at its sync.Map operations; <=2 (thorough 4) preemptions", "oracle": "replies and final store equal those of A;B or of B;A under the harness's Redis model"}
+		},
+		Assumptions: append([]string{
+			"with two clients issuing one command each, linearizability is: the observed (replies, final state) equal one of the two sequential orders",
+			"the reference store's primitive operations are atomic (no scheduling point inside); derived commands are sequences of primitives",
+			"schedules are produced by the engine's scheduler and reported after deterministic re-execution in the engine",
+		}, commonAssumptions...),
+		Outside: []string{"more than two clients, longer per-client programs, real-time order across sockets"},
+	})
+}
